@@ -572,6 +572,20 @@ def _pickle_digits(digits, reference):
     return f
 
 
+_CURRENT_SUBST = [None]
+
+
+def _rehide(Pm, x):
+    """identity on an intermediate result, except that in the twin run the numbers under ITS mask are replaced as well
+    (a value that an earlier step of the program has hidden is as invisible as one hidden from the start; seeded
+    change C03-O: bool() of a comparison result that was masked afterwards read the booleans under the mask)"""
+    if isinstance(x, Pm.Qube):
+        if x.readonly or not isinstance(x._values_, np.ndarray) or not x._values_.flags.writeable:
+            x = x.copy()
+        subst_qube(x, _CURRENT_SUBST[0], Pm, set())
+    return x
+
+
 def _shrink_rt(Pm, x):
     am = x.antimask
     return x.shrink(am).unshrink(am)
@@ -599,6 +613,7 @@ UNARY = {
     'flip': lambda Pm, x: x[::-1], 'count_masked': lambda Pm, x: x.count_masked(), 'mvals_sum': lambda Pm, x: x.mvals.sum(),
     'to_scalar0': lambda Pm, x: x.to_scalar(0), 'cumsum_like': lambda Pm, x: x + x.sum(), 'copy': lambda Pm, x: x.copy(),
     'as_index_m': lambda Pm, x: x.as_index(masked=0) if isinstance(x, Pm.Scalar) else x.as_index(masked=0),
+    'rehide': _rehide,
     'as_builtin': lambda Pm, x: x.as_builtin(), 'hash_eq': lambda Pm, x: x == x, 'float0': lambda Pm, x: float(x[0]),
 }
 BINARY = {
@@ -718,6 +733,7 @@ def run_prog(p, s, Pm):
     for i in sorted(leaves):
         nh += subst_qube(leaves[i], s, Pm, seen)
     out = {}
+    _CURRENT_SUBST[0] = s
     with warnings.catch_warnings():
         warnings.simplefilter('ignore')
         try:
@@ -800,6 +816,30 @@ def depth1_programs(unary, binary, nleaves):
         for i in range(nleaves):
             for j in range(nleaves):
                 out.append([b, ['leaf', i], ['leaf', j]])
+    return out
+
+
+def rehide_programs():
+    n = len(LEAVES)
+    out = []
+    # values hidden by a step of the program itself: observer(rehide(mask_where(cmp(a, b), c)))
+    for cmp_ in ('eq', 'ne', 'lt', 'le'):
+        for i in range(n):
+            for j in range(n):
+                if (i + 2 * j + len(cmp_)) % 3:
+                    continue
+                for k in range(n):
+                    if (i + j + k) % 2:
+                        continue
+                    out.append(['bool', ['rehide', ['mask_where', [cmp_, ['leaf', i], ['leaf', j]], ['leaf', k]]]])
+    for u in ('bool', 'mvals_sum', 'count_masked', 'str', 'neg', 'abs'):
+        if u not in UNARY:
+            continue
+        for b in ('mask_where', 'where', 'setitem'):
+            for i in range(n):
+                for k in range(n):
+                    if (i + k + len(u)) % 2 == 0:
+                        out.append([u, ['rehide', [b, ['leaf', i], ['leaf', k]]]])
     return out
 
 
@@ -1140,7 +1180,7 @@ def run(ctx):
     ctx.evaluations += tot.get('twin-runs', 0) + tot.get('twinned', 0)
     ctx.log('sweep twins done: %s' % {k: v for k, v in tot.items() if not k.startswith('exempt:')})
     # ---- (b) compositions ----
-    progs = corpus_programs()
+    progs = corpus_programs() + rehide_programs()
     if ctx.tier == 'thorough':
         progs += exhaustive_programs()
         progs += grow_programs(ctx.rng, 8000, Pm)
